@@ -20,7 +20,7 @@ def _case_variants(w):
 
 SPECIAL = {
     "SHEBANG": [("#!/usr/bin/env php\n", None), ("#!/bin/php -q\r\n", None)],
-    "HTML_TEXT": [("<html>\n<b>x</b> ", None), ("plain text ? > ", None), ("a", None), ("x < y\r\nz", None)],
+    "HTML_TEXT": [("<html>\n<b>x</b> ", None), ("plain text ? > ", None), ("a", None), ("x < y\r\nz", None), ("\xef\xbb\xbf", None)],
     "OPEN_PHP:sp": [("<?php ", [5, 1]), ("<?PHP\t", [5, 1]), ("<?pHp ", [5, 1])],
     "OPEN_PHP:lf": [("<?php\n", [5, 1])],
     "OPEN_PHP:crlf": [("<?php\r\n", [5, 2])],
